@@ -7,6 +7,7 @@ mod sim;
 mod hist;
 mod adl;
 mod yib;
+mod rdo;
 mod rtx;
 mod xw;
 mod c01;
